@@ -68,6 +68,12 @@ def diff_states(a, b, fields=None):
     return bad
 
 
+def human_short(v):
+    if isinstance(v, np.ndarray):
+        return np.array2string(v.ravel()[:6], precision=17, separator=",")
+    return repr(v)
+
+
 def state_bytes(s):
     parts = []
     for k in STATE_FIELDS + ("sk", "yk"):
